@@ -72,6 +72,9 @@ class _ProbeBase(Command):
             sim.pulled(self, dep, tok, before)
             step += 1
         sim.fault_point(me, step)
+        if getattr(type(self), "RETURNS_NONE", False):
+            sim.next_serial()
+            return None           # a side-effect-only plug-in
         return Token(me, sim.next_serial())
 
 
@@ -124,3 +127,27 @@ class ProbeOpU(_ProbeBase):
         ),
     }
     output = TokenParameter()
+
+
+class ProbeSrcNone(_ProbeBase):
+    """A side-effect-only producer: its result is None (and it declares no output kind)."""
+
+    RETURNS_NONE = True
+    inputs = {}
+    output = None
+
+
+class ProbeOpNone(_ProbeBase):
+    """A side-effect-only operator: untyped references, result None."""
+
+    RETURNS_NONE = True
+    inputs = {
+        "A": _untyped(),
+        "B": _untyped(),
+        "L": params.ListParameter(params.ResultParameter(), required=False),
+        "N": params.ListParameter(params.ListParameter(params.ResultParameter()), required=False),
+        "NN": params.ListParameter(
+            params.ListParameter(params.ListParameter(params.ResultParameter())), required=False
+        ),
+    }
+    output = None
